@@ -44,7 +44,7 @@ structure D where
   bufferItems : Nat := 0           -- Config.BufferItems: the ring stripe flushes exactly this many keys
   cover : List (String × Nat) := []
 
-def costFnImpl (v : Val) : Int := (v % 5 : Nat) + 1
+def costFnImpl (v : Val) : Int := ((v % 5 : Nat) : Int) * 9 + 1
 def suImpl (cur _prev : Val) : Bool := cur % 4 != 0
 
 def kv (ws : List String) (k : String) : Option String :=
